@@ -21,6 +21,7 @@ fi
 if bin/vsrewrite -repo "$REPO" -rt "$PWD/rt" -harness "$PWD/harness" -norewrite -out "$PWD/$H/plain" >>"$H/rw.log" 2>&1; then
   (cd "$REPO" && go build -overlay "$OLDPWD/$H/plain/overlay.json" -o /dev/null ./zz_verif/h/bbox >>"$OLDPWD/$H/build.log" 2>&1) || true
   (cd "$REPO" && go build -overlay "$OLDPWD/$H/plain/overlay.json" -o /dev/null ./zz_verif/h/bboxbridge >>"$OLDPWD/$H/build.log" 2>&1) || true
+  (cd "$REPO" && go build -overlay "$OLDPWD/$H/plain/overlay.json" -o /dev/null ./zz_verif/h/bboxagent >>"$OLDPWD/$H/build.log" 2>&1) || true
 fi
 (cd "$REPO" && go build -o /dev/null ./server && go build -o /dev/null ./agent && go build -o /dev/null ./utils/tcpbridge/tcp-bridge-frontend && go build -o /dev/null ./utils/tcpbridge/tcp-bridge-backend) || true
 rm -rf "$H"
